@@ -28,6 +28,7 @@ var kindName = []string{"ret", "pause", "panic", "pause-panic"}
 
 type ctxT struct {
 	inside   int64
+	gate     int64 // gated second batch: opens, for good, when `limit` functions are inside together
 	done     []int64
 	handled  []any // values received by the handler installed first
 	handled2 []any // values received by the handler installed after the first Wait (late scenarios)
@@ -44,6 +45,7 @@ type cfg struct {
 	batch2  int // number of pausing tasks in the second batch (0 = none)
 	handler bool
 	timed   bool // the first wait is Wait(timeout): the timer is a virtual thread, it may fire at any moment
+	gate2   bool // the functions of the second batch stay inside until `limit` of them are inside together: a slot that an earlier (timed-out) Wait did not give back keeps the gate shut — a deadlock in THIS execution, not a claim over all schedules
 	late    bool // the handler is installed after the first Go, and replaced after the first Wait (the second batch then starts with a panicking task)
 }
 
@@ -68,6 +70,9 @@ func (c cfg) name() string {
 	}
 	if c.late {
 		h += "/handler-set-late-and-replaced"
+	}
+	if c.gate2 {
+		h += "/gated-second-batch"
 	}
 	return fmt.Sprintf("limit%d/%s/batch2=%d/%s", c.limit, strings.Join(ks, ","), c.batch2, h)
 }
@@ -96,6 +101,12 @@ func scenario(c cfg) sched.Spec {
 					}
 					if second && n > maxInside2 {
 						maxInside2 = n
+					}
+					if second && c.gate2 {
+						if n == eff {
+							vatomic.StoreInt64(&st.gate, 1)
+						}
+						core.WaitFor(func() bool { return st.gate == 1 })
 					}
 					if kind == pauseRet || kind == pausePnc {
 						core.Pause()
@@ -518,6 +529,12 @@ func main() {
 		// the largest scenarios: the quick bound shrinks with the limit.
 		tq := []int{0, 2, 2, 1}[eff]
 		add(cfg{limit: limit, tasks: []int{pauseRet}, batch2: eff + 1, handler: true, timed: true}, tq, 3)
+		if eff >= 2 {
+			// the same with a gated second batch: every execution must get `limit` functions inside
+			// together after the timed wait, whichever way the timer went (limit 1 has nothing to lose:
+			// a timed wait that takes no slot cannot keep one)
+			add(cfg{limit: limit, tasks: []int{pauseRet}, batch2: eff + 1, handler: true, timed: true, gate2: true}, tq, 3)
+		}
 		if eff <= 2 {
 			add(cfg{limit: limit, tasks: []int{pauseRet, pausePnc}, batch2: eff + 1, handler: true, timed: true}, 3-eff, 3)
 		}
